@@ -1,7 +1,127 @@
-From Coq Require Import List ZArith.
+(* C12 — Config mode, recalibration, factory reset need physical access or authorisation.
+   Property theorems only: each is closed by `exact` of a lemma proved in C12/Proofs.v.
+   Vocabulary (C12/Model.v, C12/Proofs.v):
+     run evs               outputs of the device automaton from power-off; evs starts with Boot
+     EnterCfg t            supla_esp_cfgmode_start() got past its guard at time t (configuration mode entered)
+     hist i pre            history of input i in the event prefix pre: number of state changes (h_n), time and
+                           direction of the last change (h_t, h_st), notified state (h_phys); clock pre = elapsed us
+     held pre i x          input x (index i) has on-hold enabled (CFG_BTN, monostable, not toggle-only), its last state
+                           change was "pressed" and PRESS_TIME_MS have elapsed since (true time)
+     cause_enter s pre e   e is (a) a timer tick of a held configuration button while not in configuration mode,
+                           (b) a state change of an input with on-toggle enabled that is at least the PRESS_COUNT-th
+                               change of that input, or
+                           (c) a CALCFG request that passed the size gate with Command = ENTER_CFG_MODE and
+                               SuperUserAuthorized = 1
+     cause_factory s pre e e is a timer tick of a held button with CFG_BTN and FACTORY_RESET while cfgmode s = true
+     code_shape            the generated call-site lists of the choke-point functions / the dispatcher's callees
+                           equal the lists the model implements (closed by reflexivity in Proofs.code_shape_holds) *)
+From Coq Require Import List ZArith Bool.
 Import ListNotations.
-From V Require Import Base.Bytes Gen.C12Consts C12.Model C12.Proofs.
+From V Require Import Base.U32 Base.Bytes Gen.C12Consts C12.Model C12.Proofs.
 Local Open Scope Z_scope.
-Theorem C12_placeholder : run [] = [].
-Proof. exact placeholder_thm. Qed.
-Print Assumptions C12_placeholder.
+
+(* Configuration mode is entered (from any boot configuration, under any interleaving of server messages over all
+   call ids/payloads, button notifications, timer ticks, clock advances and shutter-engine activity) only by
+   (d) the boot itself with an incomplete configuration, or an event with one of the causes (a), (b), (c). *)
+Theorem C12_only_these_enter_cfgmode : forall b32 bl fc ins rs evs t,
+  Forall ev_ok evs ->
+  In (EnterCfg t) (run (Boot b32 bl fc ins rs :: evs)) ->
+  incomplete (if fc =? 0 then 15 else bl) = true \/
+  exists pre e post, evs = pre ++ e :: post /\
+    cause_enter (fst (run_from init (Boot b32 bl fc ins rs :: pre))) pre e.
+Proof. exact (only_these_enter_cfgmode_thm code_shape_holds). Qed.
+Print Assumptions C12_only_these_enter_cfgmode.
+(* Clause (b) is proved for the NUMBER of state changes (>= PRESS_COUNT on an input with on-toggle enabled).
+   The full clause "each of the ten within the chaining window of the previous one, in true time"
+       forall ..., cause (b) -> the last PRESS_COUNT changes of input i are pairwise less than 2 s apart
+   is false of the faithful model (32-bit time differences): C12_toggle_chain_u32_wrap_refuted. *)
+
+(* nothing happens before the first boot *)
+Theorem C12_preboot_ignored : forall pre evs,
+  (forall e, In e pre -> forall a b c d f, e <> Boot a b c d f) -> run (pre ++ evs) = run evs.
+Proof. exact preboot_ignored. Qed.
+Print Assumptions C12_preboot_ignored.
+
+(* An enter-configuration request whose flag is not 1 is answered UNAUTHORIZED and leaves the whole state unchanged
+   (registered s <> 0: the registration step of devconn_iterate is not pending; the answer is sent iff the device
+   is registered, send_result). *)
+Theorem C12_unauthorised_is_inert_enter : forall s p,
+  live s -> srpc_up s = true -> registered s <> 0 -> calcfg_gate p = true -> unauth_class p = true ->
+  s32 (le32 p REQ_OFF_COMMAND) = CMD_ENTER_CFG_MODE -> nthz p REQ_OFF_AUTH <> 1 ->
+  step s (Srv CALL_CALCFG_REQUEST p) =
+    (s, send_result s (s32 (le32 p REQ_OFF_SENDER)) (s32 (le32 p REQ_OFF_CHANNEL)) CMD_ENTER_CFG_MODE RES_UNAUTHORIZED ++ [Inert true]).
+Proof. exact (unauthorised_enter_inert_thm consts_ok). Qed.
+Print Assumptions C12_unauthorised_is_inert_enter.
+
+(* A recalibrate request with the flag clear leaves the whole state unchanged; the answer is UNAUTHORIZED when the
+   request is one the device would otherwise execute, NOT_SUPPORTED when it addresses nothing recalibratable. *)
+Theorem C12_unauthorised_is_inert_recalibrate : forall s p,
+  live s -> srpc_up s = true -> registered s <> 0 -> calcfg_gate p = true -> unauth_class p = true ->
+  s32 (le32 p REQ_OFF_COMMAND) = CMD_RECALIBRATE -> nthz p REQ_OFF_AUTH = 0 ->
+  exists res,
+  step s (Srv CALL_CALCFG_REQUEST p) =
+    (s, send_result s (s32 (le32 p REQ_OFF_SENDER)) (s32 (le32 p REQ_OFF_CHANNEL)) CMD_RECALIBRATE res ++ [Inert true]) /\
+  (res = RES_UNAUTHORIZED \/ res = RES_NOT_SUPPORTED) /\
+  (let dtype := s32 (le32 p REQ_OFF_DATATYPE) in
+   ((dtype =? DATATYPE_RS_SETTINGS) && (le32 p REQ_OFF_DATASIZE =? RSSET_SIZE) || (dtype =? 0)) = true ->
+   existsb (rmatch (s32 (le32 p REQ_OFF_CHANNEL))) (rss s) = true -> res = RES_UNAUTHORIZED).
+Proof. exact (unauthorised_recalibrate_inert_thm consts_ok). Qed.
+Print Assumptions C12_unauthorised_is_inert_recalibrate.
+
+(* Every server message (any call id, any payload, from any state) that changes calibration data (full opening /
+   closing times, auto-calibration times and step, position, tilt of any shutter) is an authorised recalibrate request
+   for a channel that supports it — except the known finding: set-value messages addressed to a shutter channel. *)
+Theorem C12_no_other_message_touches_calibration_except_known : forall s call p,
+  live s -> ~ known_class s call p ->
+  calib_all (fst (step s (Srv call p))) <> calib_all s ->
+  call = CALL_CALCFG_REQUEST /\ calcfg_gate p = true /\ s32 (le32 p REQ_OFF_COMMAND) = CMD_RECALIBRATE /\ nthz p REQ_OFF_AUTH <> 0 /\
+  existsb (rmatch (s32 (le32 p REQ_OFF_CHANNEL))) (rss (pre_iter s)) = true.
+Proof. exact (no_other_message_touches_calibration_except_known_thm code_shape_holds). Qed.
+Print Assumptions C12_no_other_message_touches_calibration_except_known.
+
+(* the clause without the exception is false: a registered device, stored times 10.0 s / 12.0 s, plain
+   CHANNEL_SET_VALUE for the shutter channel with DurationMS = 130 | 100 << 16 *)
+Theorem C12_no_other_message_touches_calibration_refuted :
+  run (w_pro TYPE_MONOSTABLE FLAG_CFG_BTN ++ [w_setvalue]) = [Cal 0 10000 13000 0 0 0 0 0; CfgFlash 1 1 0] /\
+  CALL_SET_VALUE <> CALL_CALCFG_REQUEST.
+Proof. exact no_other_message_touches_calibration_refuted_thm. Qed.
+Print Assumptions C12_no_other_message_touches_calibration_refuted.
+
+(* factory_defaults runs only at a first boot (no valid stored configuration) or on a tick of a held
+   FACTORY_RESET-capable configuration button while configuration mode is already on *)
+Theorem C12_factory_reset_only_in_cfgmode : forall b32 bl fc ins rs evs,
+  Forall ev_ok evs ->
+  In Factory (run (Boot b32 bl fc ins rs :: evs)) ->
+  fc = 0 \/
+  exists pre e post, evs = pre ++ e :: post /\
+    cause_factory (fst (run_from init (Boot b32 bl fc ins rs :: pre))) pre e.
+Proof. exact (factory_reset_only_in_cfgmode_thm code_shape_holds). Qed.
+Print Assumptions C12_factory_reset_only_in_cfgmode.
+
+(* known finding toggle-gap-u32-wrap: ten toggles 2^32 us apart are chained; 40 minutes apart they are not *)
+Theorem C12_toggle_chain_u32_wrap_refuted :
+  filter (fun o => match o with EnterCfg _ => true | _ => false end) (run (w_boot TYPE_BISTABLE FLAG_CFG_BTN :: w_wrap_toggles))
+  = [EnterCfg (500000 + 9 * 4294967296)].
+Proof. exact toggle_chain_u32_wrap_refuted_thm. Qed.
+Print Assumptions C12_toggle_chain_u32_wrap_refuted.
+Theorem C12_toggles_40min_apart_do_not_enter : run (w_boot TYPE_BISTABLE FLAG_CFG_BTN :: w_40min_toggles) = [].
+Proof. exact toggles_40min_apart_do_not_enter_thm. Qed.
+Print Assumptions C12_toggles_40min_apart_do_not_enter.
+
+(* non-vacuity: each legitimate cause occurs, 249 ticks of 20 ms are not enough, unauthorised requests are answered,
+   an authorised recalibrate resets the data, the factory-reset path exists *)
+Example C12_nonvacuous :
+  run (w_boot TYPE_MONOSTABLE FLAG_CFG_BTN :: [Time 500000; Notify 0 1] ++ w_ticks 250) = [EnterCfg 5500000] /\
+  run (w_boot TYPE_MONOSTABLE FLAG_CFG_BTN :: [Time 500000; Notify 0 1] ++ w_ticks 249) = [] /\
+  run (w_boot TYPE_BISTABLE FLAG_CFG_BTN :: [Time 500000] ++ concat (map (fun k => [Notify 0 (Z.of_nat (S k) mod 2); Time 300000]) (seq 0 10)))
+    = [EnterCfg (500000 + 9 * 300000)] /\
+  run (w_pro TYPE_MONOSTABLE FLAG_CFG_BTN ++ [w_calcfg CMD_ENTER_CFG_MODE 1]) = [EnterCfg 0; CalRes 7 0 CMD_ENTER_CFG_MODE RES_DONE] /\
+  run (w_pro TYPE_MONOSTABLE FLAG_CFG_BTN ++ [w_calcfg CMD_ENTER_CFG_MODE 0]) = [CalRes 7 0 CMD_ENTER_CFG_MODE RES_UNAUTHORIZED; Inert true] /\
+  run (w_pro TYPE_MONOSTABLE FLAG_CFG_BTN ++ [w_calcfg CMD_RECALIBRATE 0]) = [CalRes 7 0 CMD_RECALIBRATE RES_UNAUTHORIZED; Inert true] /\
+  run (w_pro TYPE_MONOSTABLE FLAG_CFG_BTN ++ [RsEnv 0 10000 12000 0 0 5100 0 0 0; w_calcfg CMD_RECALIBRATE 1]) =
+      [CalRes 7 0 CMD_RECALIBRATE RES_DONE; Cal 0 10000 12000 0 0 0 0 0] /\
+  run [Boot 1 2 1 [w_in TYPE_MONOSTABLE FLAG_CFG_BTN] []] = [EnterCfg 0] /\
+  run (w_boot TYPE_MONOSTABLE (FLAG_CFG_BTN + FLAG_FACTORY_RESET) :: [Time 500000; Notify 0 1] ++ w_ticks 250 ++ [Notify 0 0; Time 100000; Notify 0 1] ++ w_ticks 250)
+    = [EnterCfg 5500000; Factory; CfgFlash 1 1 15; Restart (5500000 + 100000 + 5000000 + 500000)].
+Proof. exact nonvacuous_thm. Qed.
+Print Assumptions C12_nonvacuous.
